@@ -44,7 +44,7 @@ func registerProtoModel(P *Program) {
 		vars, ok := ex.protoSnaps[key]
 		if !ok {
 			for i := 0; i < protoLen; i++ {
-				vars = append(vars, ex.newInput(fmt.Sprintf("enc%d[%d]", len(ex.protoSnaps), i), 8))
+				vars = append(vars, ex.newAux(fmt.Sprintf("enc%d[%d]", len(ex.protoSnaps), i), 8))
 			}
 			ex.protoSnaps[key] = vars
 		}
